@@ -197,6 +197,10 @@ def mutate(data: bytes, spec: list, other: bytes = b"") -> bytes:
         return zip_sub(data, spec[1], spec[2], spec[3], spec[4] if len(spec) > 4 else 1)
     if op == "zipenc":                                 # valid ZIP whose members carry the "encrypted" flag bit
         return zip_flag_encrypted(build_archive("zip", [(n, data) for n in spec[1]]))
+    if op == "omml":                                   # DOCX / PPTX with a formula nesting one OMML construct n deep
+        return omml_document(data, spec[1], spec[2], spec[3])
+    if op == "surr":                                   # multi-result inputs whose k-th result cannot be encoded
+        return surrogate_input(spec[1])
     if op == "himg":                                   # the hostile image itself (for the sniffers)
         return HOSTILE_IMAGES[spec[1]]
     if op == "zipimg":                                 # every raster media part of a ZIP container replaced
@@ -864,3 +868,93 @@ def zip_flag_encrypted(data: bytes) -> bytes:
 # names that would break a one-line diagnostic or a terminal if they were echoed
 HOSTILE_ECHO_NAMES = ["minutes\n2024 Q3.txt", "a\rb.txt", "x\x1b[31mred.txt", "tab\there.txt", "nl\n\n\nmany.docx",
                       "u\u2028sep.txt", "q" * 250 + ".txt", "dir\n/inner.txt", "report.docx\n"]
+
+
+# ---------------------------------------------------------------------------- formula-bearing documents (OMML)
+_M = "http://schemas.openxmlformats.org/officeDocument/2006/math"
+_LEAF = "<m:r><m:t>x</m:t></m:r>"
+_TWO = "<m:r><m:t>2</m:t></m:r>"
+OMML_NEST = {
+    "d": '<m:d><m:dPr><m:begChr m:val="("/><m:endChr m:val=")"/></m:dPr><m:e>{I}</m:e></m:d>',
+    "d2": '<m:d><m:dPr><m:begChr m:val="["/><m:sepChr m:val="|"/></m:dPr><m:e>{I}</m:e><m:e>' + _TWO + "</m:e></m:d>",
+    "f": "<m:f><m:num>{I}</m:num><m:den>" + _TWO + "</m:den></m:f>",
+    "fden": "<m:f><m:num>" + _TWO + "</m:num><m:den>{I}</m:den></m:f>",
+    "rad": "<m:rad><m:radPr><m:degHide m:val=\"1\"/></m:radPr><m:deg/><m:e>{I}</m:e></m:rad>",
+    "raddeg": "<m:rad><m:deg>{I}</m:deg><m:e>" + _TWO + "</m:e></m:rad>",
+    "sSup": "<m:sSup><m:e>{I}</m:e><m:sup>" + _TWO + "</m:sup></m:sSup>",
+    "sSupsup": "<m:sSup><m:e>" + _TWO + "</m:e><m:sup>{I}</m:sup></m:sSup>",
+    "sSub": "<m:sSub><m:e>{I}</m:e><m:sub>" + _TWO + "</m:sub></m:sSub>",
+    "sSubSup": "<m:sSubSup><m:e>{I}</m:e><m:sub>" + _TWO + "</m:sub><m:sup>" + _TWO + "</m:sup></m:sSubSup>",
+    "sPre": "<m:sPre><m:sub>" + _TWO + "</m:sub><m:sup>" + _TWO + "</m:sup><m:e>{I}</m:e></m:sPre>",
+    "nary": '<m:nary><m:naryPr><m:chr m:val="&#8721;"/></m:naryPr><m:sub>' + _TWO + "</m:sub><m:sup>" + _TWO + "</m:sup><m:e>{I}</m:e></m:nary>",
+    "func": "<m:func><m:fName><m:r><m:t>sin</m:t></m:r></m:fName><m:e>{I}</m:e></m:func>",
+    "acc": '<m:acc><m:accPr><m:chr m:val="&#770;"/></m:accPr><m:e>{I}</m:e></m:acc>',
+    "bar": "<m:bar><m:e>{I}</m:e></m:bar>",
+    "box": "<m:box><m:e>{I}</m:e></m:box>",
+    "borderBox": "<m:borderBox><m:e>{I}</m:e></m:borderBox>",
+    "groupChr": "<m:groupChr><m:e>{I}</m:e></m:groupChr>",
+    "limLow": "<m:limLow><m:e>{I}</m:e><m:lim>" + _TWO + "</m:lim></m:limLow>",
+    "limUpp": "<m:limUpp><m:e>" + _TWO + "</m:e><m:lim>{I}</m:lim></m:limUpp>",
+    "m": "<m:m><m:mr><m:e>{I}</m:e><m:e>" + _TWO + "</m:e></m:mr></m:m>",
+    "eqArr": "<m:eqArr><m:e>{I}</m:e><m:e>" + _TWO + "</m:e></m:eqArr>",
+    "phant": "<m:phant><m:e>{I}</m:e></m:phant>",
+    "mix": None,                                         # all of the above in rotation
+}
+
+
+def omml_document(data: bytes, construct: str, depth: int, display: int) -> bytes:
+    """put one formula into a DOCX (word/document.xml) or PPTX (first slide) seed: `construct` nested `depth` deep."""
+    keys = [k for k in OMML_NEST if OMML_NEST[k]]
+    inner = _LEAF
+    for i in range(depth):
+        t = OMML_NEST[construct] or OMML_NEST[keys[i % len(keys)]]
+        inner = t.replace("{I}", inner)
+    math = f'<m:oMath xmlns:m="{_M}">{inner}</m:oMath>'
+    if display:
+        math = f'<m:oMathPara xmlns:m="{_M}">{math}</m:oMathPara>'
+    is_pptx = b"ppt/presentation.xml" in data
+    if is_pptx:
+        return zip_sub(data, "slide1.xml", r"(<a:p>|<a:p [^>]*>)", "\\1" + math.replace("\\", "\\\\"), 1)
+    return zip_sub(data, "word/document.xml", r"(<w:body>|<w:body [^>]*>)", "\\1<w:p>" + math.replace("\\", "\\\\") + "</w:p>", 1)
+
+
+# ------------------------------------------------------- results whose text no UTF-8 stream can take (lone surrogate)
+def _mbox_msg(sender, subject, body, charset):
+    return (b"From " + sender + b" Mon Jan  1 00:00:00 2024\nFrom: " + sender + b"\nTo: bob@example.com\nSubject: " + subject
+            + b"\nDate: Mon, 01 Jan 2024 00:00:00 +0000\nMIME-Version: 1.0\nContent-Type: text/plain; charset=" + charset
+            + b"\n\n" + body + b"\n\n")
+
+
+def surrogate_input(which: str) -> bytes:
+    clean1 = _mbox_msg(b"alice@example.com", b"minutes", b"The minutes of the meeting.", b"utf-8")
+    clean2 = _mbox_msg(b"carol@example.com", b"re: minutes", b"Thanks, all fine.", b"utf-8")
+    odd = _mbox_msg(b"carol@example.com", b"re: minutes", b"Thanks \\ud800 all fine.", b"unicode-escape")
+    html_odd = b'<html><head><meta charset="unicode-escape"><title>t</title></head><body><p>odd \\ud800 text</p></body></html>'
+    if which == "mbox_clean":
+        return clean1 + clean2
+    if which == "mbox_second":
+        return clean1 + odd
+    if which == "mbox_first":
+        return odd + clean2
+    if which == "mbox_third":
+        return clean1 + clean2 + odd
+    if which == "mbox_only":
+        return odd
+    if which == "html_only":
+        return html_odd
+    if which == "zip_second":
+        return build_archive("zip", [("a.txt", b"first member"), ("b.html", html_odd)])
+    if which == "zip_first":
+        return build_archive("zip", [("a.html", html_odd), ("b.txt", b"second member")])
+    if which == "tar_second":
+        return build_archive("tar", [("a.txt", b"first member"), ("b.mbox", odd)])
+    if which == "zip_none":                                # no supported member at all: 0 results
+        return build_archive("zip", [("a.bin", b"x"), ("b.dat", b"y")])
+    if which == "zip_three":
+        return build_archive("zip", [("a.txt", b"one"), ("b.md", b"two"), ("c.csv", b"a,b\n1,2\n")])
+    raise ValueError(which)
+
+
+SURR_INPUTS = {"mbox_clean": "mbox", "mbox_second": "mbox", "mbox_first": "mbox", "mbox_third": "mbox", "mbox_only": "mbox",
+               "html_only": "html", "zip_second": "zip", "zip_first": "zip", "tar_second": "tar", "zip_none": "zip",
+               "zip_three": "zip"}
